@@ -490,6 +490,7 @@ class Interp:
         self.visited: set[str] = set()
         self._module_frames: dict[str, Frame] = {}
         self._class_attrs: dict[tuple[str, str], V] = {}
+        self._run_conds: list[Formula] = []  # conditions attached to the element of the current run (filtering dict comprehension)
 
     # ------------------------------------------------------------------ helpers
     def note(self, text: str) -> None:
@@ -955,6 +956,7 @@ class Interp:
             flags = self._flags_before(fr, s.body) if ckey is not None else {}
             try:
                 value = self.loop_value(fr, value, lp, s)
+                self.frames[-1] = conj([self.frames[-1], self.take_run_conds()])  # the run's own guard frame (pushed above)
                 self.assign(fr, s.target, value, s)
                 self.exec_block(fr, s.body)
             finally:
@@ -1029,8 +1031,13 @@ class Interp:
                     taint |= self.taint_of_atom(a)
                 fr.env[name] = Unknown(f"{name}@loop", taint)
 
+    def take_run_conds(self) -> Formula:
+        f = conj(self._run_conds)
+        self._run_conds = []
+        return f
+
     def loop_value(self, fr: Frame, value, lp: "Loop | None", node: ast.AST) -> V:
-        """The value bound to the loop variable of one run of `iteration_plan`."""
+        """The value bound to the loop variable of one run of `iteration_plan` (conditions on the element: `take_run_conds`)."""
         if isinstance(value, _Mapped):
             inner = self.loop_value(fr, value.inner, lp, node)
             if value.fn is None:  # enumerate
@@ -1044,9 +1051,7 @@ class Interp:
                 d.fr.env = dict(d.env)
                 try:
                     self.assign(d.fr, gen.target, inner, d.node)
-                    conds = [self.bf(d.fr, c) for c in gen.ifs]
-                    if conds:
-                        self.frames[-1] = conj([self.frames[-1], *conds])  # the run's own guard frame
+                    self._run_conds += [self.bf(d.fr, c) for c in gen.ifs]
                     k = self.ev(d.fr, d.node.key) if d.mode in ("keys", "items") else None
                     v = self.ev(d.fr, d.node.value) if d.mode in ("values", "items") else None
                 finally:
@@ -1247,7 +1252,8 @@ class Interp:
                     saved = self.loops
                     self.loops = [*self.loops, lp if lp is not None else Loop(f"u{len(self.loops)}", Coll(), None, None)]
                     try:
-                        self._add_value(c, self.loop_value(fr, value, lp, node), self.guard(), None, None)
+                        val = self.loop_value(fr, value, lp, node)
+                        self._add_value(c, val, conj([self.guard(), self.take_run_conds()]), None, None)
                     finally:
                         self.loops[-1].active = False
                         self.loops = saved
@@ -1730,6 +1736,8 @@ class Interp:
             pushed = 1
             try:
                 value = self.loop_value(fr, value, lp, e)
+                self.frames.append(self.take_run_conds())
+                pushed += 1
                 self.assign(fr, g.target, value, e)
                 for c in g.ifs:
                     self.frames.append(self.bf(fr, c))
@@ -1760,7 +1768,7 @@ class Interp:
                 self.loops = [*self.loops, lp if lp is not None else Loop(f"u{len(self.loops)}", Coll(), arg, fr.fi)]
                 try:
                     t = self.truth(self.loop_value(fr, value, lp, arg))
-                    f = conj([guard, f_not(t) if universal else t])
+                    f = conj([guard, self.take_run_conds(), f_not(t) if universal else t])
                 finally:
                     self.loops[-1].active = False
                     self.loops = saved
@@ -1788,7 +1796,7 @@ class Interp:
             try:
                 value = self.loop_value(fr, value, lp, e)
                 self.assign(fr, g.target, value, e)
-                conds = [guard, *[self.bf(fr, c) for c in g.ifs]]
+                conds = [guard, self.take_run_conds(), *[self.bf(fr, c) for c in g.ifs]]
                 inner = self._quant_gen(fr, e, i + 1, universal)
                 f = conj([*conds, inner])  # existential form (for `all`: a counter-example)
             finally:
